@@ -18,6 +18,8 @@ func init() {
 }
 
 func c19(c *Ctx) {
+	c.ExpectAll("classify/match-anchored", c.CallArgs("http.CompileMatch", c.P.PlainCalls("regexp.Compile"), 0), pat("((\"^\" + strings.ReplaceAll(regexp.QuoteMeta(p0), \"\\\\*\", \".*\")) + \"$\")"), 1,
+		"a passthrough / always-forward pattern is compiled anchored at both ends, with only the escaped '*' turned into a wildcard", "without the end anchor '/healthz' also matches '/healthz/reset': a write on a replica is handed to the local application")
 	p := c.P
 	sh, sr, snr, ptt := "http.(*ProxyServer).serveHTTP", "http.(*ProxyServer).serveRead", "http.(*ProxyServer).serveNonRead", "http.(*ProxyServer).proxyToTarget"
 	rt := p.Calls("net/http.(*Transport).RoundTrip", "net/http.RoundTripper.RoundTrip", "net/http.(*Client).Do", "net/http.(*Client).Get", "net/http.(*Client).Post", "net/http/httputil.(*ReverseProxy).ServeHTTP")
